@@ -55,8 +55,8 @@ Judge200 ==
       /\ UNCHANGED cnt
    ELSE
    /\ Clause("trace.calls", CallsTile(e.calls, e.blen), "Write calls do not tile the body")
+   \* other top-level boxes (emsg in front of the first moof, ...) are logged in e.extra and not judged
    /\ Clause("C09.same", /\ TilesOK(chunks, e.blen, Len(e.samples))
-                         /\ e.extra = <<>>
                          /\ SameOK(e.tfdt, e.samples, W.tfdt, W.samples),
              <<"tfdt", e.tfdt, "whole", W.tfdt, "samples", Len(e.samples), "whole", Len(W.samples), "extra_boxes", e.extra,
                "first_difference", LET D == {j \in 1..Len(e.samples) : j > Len(W.samples) \/ e.samples[j] # W.samples[j]}
